@@ -847,3 +847,148 @@ Proof.
   - apply ops_rel_same; [exact stable_refl|]. unfold kpost.
     destruct (existsb _ _); [|reflexivity]. destruct (more c); reflexivity.
 Qed.
+
+(** Lifting a per-operation relation from the three functions that write the table to steps. *)
+Lemma process_ops_rel (R : op -> op -> Prop) :
+  (forall o, R o o) -> (forall a b c, R a b -> R b c -> R a c) ->
+  (forall s i c, ops_rel R s (fst (update s i c))) ->
+  forall f s, ops_rel R s (fst (process f s)).
+Proof.
+  intros Hr Ht Hu. induction f as [|f IH]; intros s; cbn [process]; [apply ops_rel_same; auto|].
+  destruct (cq s) as [|[t c] r]; [apply ops_rel_same; auto|]. destruct t as [i|].
+  - specialize (Hu (pop_cq s (Some i) c r) i c).
+    destruct (update (pop_cq s (Some i) c r) i c) as [s1 o1]. cbn [fst] in Hu.
+    specialize (IH s1). destruct (process f s1) as [s2 o2]. cbn [fst] in *.
+    apply (ops_rel_trans R _ s1); [exact Ht| |exact IH]. intros j. exact (Hu j).
+  - specialize (IH (pop_cq s None c r)). intros j. exact (IH j).
+Qed.
+
+Lemma step_ops_rel (R : op -> op -> Prop) :
+  (forall o, R o o) -> (forall a b c, R a b -> R b c -> R a c) ->
+  (forall s i w, ops_rel R s (fst (poll s i w))) ->
+  (forall s i, ops_rel R s (fst (drop_op s i))) ->
+  (forall s i c, ops_rel R s (fst (update s i c))) ->
+  forall s e, ops_rel R s (fst (step s e)).
+Proof.
+  intros Hr Ht Hp Hd Hu s e. destruct e as [i w|i| |i c]; cbn [step fst]; auto.
+  - rewrite ring_poll_phases. pose proof (phase1_ops s) as H1. destruct (phase1 s) as [s1 o1].
+    cbn [fst] in H1. pose proof (process_ops_rel R Hr Ht Hu (length (cq s1)) s1) as Hpr.
+    destruct (process (length (cq s1)) s1) as [s2 o2]. cbn [fst] in *.
+    intros j. specialize (Hpr j). rewrite H1 in Hpr. exact Hpr.
+  - apply ops_rel_same; [exact Hr|]. unfold kpost.
+    destruct (existsb _ _); [|reflexivity]. destruct (more c); reflexivity.
+Qed.
+
+(** A property of single operations that every write of the table preserves holds in every
+    state reachable from [init] by any history. *)
+Lemma ops_rel_preserves (P : op -> Prop) s s' :
+  ops_rel (fun o o' => P o -> P o') s s' ->
+  (forall i o, nth_error (ops s) i = Some o -> P o) ->
+  forall i o, nth_error (ops s') i = Some o -> P o.
+Proof.
+  intros Hrel H i o' Hi'. specialize (Hrel i). rewrite Hi' in Hrel.
+  destruct (nth_error (ops s) i) as [o|] eqn:Hi; [|contradiction]. apply Hrel. exact (H i o Hi).
+Qed.
+
+Lemma drop_ops_rel (R : op -> op -> Prop) :
+  (forall o, R o o) ->
+  (forall o, R o (with_st o Dropped)) -> (forall o, R o (free_op o)) ->
+  forall s i, ops_rel R s (fst (drop_op s i)).
+Proof.
+  intros Hr Hd Hf s i. unfold drop_op.
+  destruct (nth_error (ops s) i) as [o|] eqn:Hi; [|apply ops_rel_same; auto].
+  destruct (st o) eqn:Est; cbn [fst]; try (apply ops_rel_same; auto; fail);
+    try (apply (ops_rel_set_op R s i o); auto; fail).
+  intros j. rewrite nth_error_set_op by (destruct (has_room s); cbn [push_sq ops]; eapply nth_error_lt; eauto).
+  replace (ops (if has_room s then push_sq s (Cancel i) else s)) with (ops s)
+    by (destruct (has_room s); reflexivity).
+  destruct (Nat.eqb_spec j i) as [->|]; [rewrite Hi; apply Hd|].
+  destruct (nth_error (ops s) j); auto.
+Qed.
+
+(** The result slot of a single-shot operation holds exactly one entry. *)
+Definition slot_ok (o : op) : Prop :=
+  kd o = Single -> match st o with Running rs | Done rs => length rs = 1 | _ => True end.
+
+Definition slot_rel (o o' : op) : Prop := slot_ok o -> slot_ok o'.
+
+Lemma poll_start_slot s i o o1 w :
+  nth_error (ops s) i = Some o -> st o1 = NotStarted -> ops_rel slot_rel s (fst (poll_start s i o1 w)).
+Proof.
+  assert (Hr : forall o, slot_rel o o) by (unfold slot_rel; auto).
+  intros Hi Hs. unfold poll_start. destruct (has_room s); cbn [fst].
+  - eapply ops_rel_ext; [|apply (ops_rel_set_op slot_rel s i o); [exact Hr|exact Hi|]]; [reflexivity|].
+    unfold slot_rel, slot_ok. cbn. intros _ Hk. rewrite Hk. reflexivity.
+  - eapply ops_rel_ext; [|apply (ops_rel_set_op slot_rel s i o); [exact Hr|exact Hi|]]; [reflexivity|].
+    unfold slot_rel, slot_ok. rewrite Hs. auto.
+Qed.
+
+Lemma poll_slot s i w : ops_rel slot_rel s (fst (poll s i w)).
+Proof.
+  assert (Hr : forall o, slot_rel o o) by (unfold slot_rel; auto).
+  unfold poll. destruct (nth_error (ops s) i) as [o|] eqn:Hi; [|apply ops_rel_same; auto].
+  assert (Hset : forall o', slot_rel o o' -> ops_rel slot_rel s (set_op s i o')).
+  { intros o' Ho'. apply (ops_rel_set_op slot_rel s i o); auto. }
+  assert (Hid : ops_rel slot_rel s s) by (apply ops_rel_same; auto).
+  assert (Hre : ops_rel slot_rel s (fst (poll_start s i (new_attempt (with_st o NotStarted)) w)))
+    by (apply (poll_start_slot s i o); auto).
+  destruct (st o) eqn:Est.
+  - apply (poll_start_slot s i o); auto.
+  - destruct (kd o) eqn:Ek; [|destruct rs as [|c rs']]; cbn [fst]; apply Hset;
+      unfold slot_rel, slot_ok; op_cbn; rewrite ?Est, ?Ek; auto; try discriminate.
+  - destruct (kd o) eqn:Ek; destruct rs as [|c rs']; cbn [fst]; auto;
+      try (apply Hset; unfold slot_rel, slot_ok; op_cbn; rewrite ?Ek; auto; discriminate).
+    + destruct (0 <=? res c)%Z; [apply Hset; unfold slot_rel, slot_ok; op_cbn; auto|].
+      destruct (is_restart c); [exact Hre|apply Hset; unfold slot_rel, slot_ok; op_cbn; auto].
+    + destruct (0 <=? res c)%Z; [apply Hset; unfold slot_rel, slot_ok; op_cbn; rewrite Ek; discriminate|].
+      destruct (is_restart c); [|apply Hset; unfold slot_rel, slot_ok; op_cbn; rewrite Ek; discriminate].
+      destruct rs'; [exact Hre|apply Hset; unfold slot_rel, slot_ok; op_cbn; rewrite Ek; discriminate].
+  - exact Hid.
+  - exact Hid.
+Qed.
+
+Lemma update_slot s i c : ops_rel slot_rel s (fst (update s i c)).
+Proof.
+  assert (Hr : forall o, slot_rel o o) by (unfold slot_rel; auto).
+  unfold update. destruct (nth_error (ops s) i) as [o|] eqn:Hi; [|apply ops_rel_same; auto].
+  assert (Hset : forall o', slot_rel o o' -> ops_rel slot_rel s (set_op s i o')).
+  { intros o' Ho'. apply (ops_rel_set_op slot_rel s i o); auto. }
+  assert (Hnew : forall rs o', st o = Running rs \/ st o = Done rs -> kd o' = kd o ->
+            (exists rs', (st o' = Running rs' \/ st o' = Done rs')
+                         /\ rs' = match kd o with Single => if notif c then rs else [c] | Multi => rs ++ [c] end) ->
+            slot_rel o o').
+  { intros rs o' Hs Hk (rs' & Hs' & Hrs). unfold slot_rel, slot_ok. rewrite Hk. intros H Hsingle.
+    specialize (H Hsingle). rewrite Hsingle in Hrs.
+    assert (length rs = 1) by (destruct Hs as [Hs|Hs]; rewrite Hs in H; exact H).
+    assert (length rs' = 1) by (subst rs'; destruct (notif c); auto).
+    destruct Hs' as [Hs'|Hs']; rewrite Hs'; assumption. }
+  destruct (st o) eqn:Est; cbn [fst]; try (apply ops_rel_same; auto; fail).
+  - destruct (negb (more c)) eqn:Em; cbn [orb].
+    + destruct (waker o); cbn [fst]; apply Hset, (Hnew rs); op_cbn; eauto.
+    + destruct (kd o) eqn:Ek; [|destruct (waker o)]; cbn [fst]; apply Hset, (Hnew rs); op_cbn;
+        rewrite ?Ek; eauto.
+  - destruct (negb (more c)) eqn:Em; cbn [orb].
+    + destruct (waker o); cbn [fst]; apply Hset, (Hnew rs); op_cbn; eauto.
+    + destruct (kd o) eqn:Ek; [|destruct (waker o)]; cbn [fst]; apply Hset, (Hnew rs); op_cbn;
+        rewrite ?Ek; eauto.
+  - destruct (more c); cbn [fst]; apply Hset; unfold slot_rel, slot_ok; op_cbn; rewrite Est; auto.
+Qed.
+
+Lemma step_slot s e : ops_rel slot_rel s (fst (step s e)).
+Proof.
+  apply step_ops_rel; try (unfold slot_rel; auto; fail).
+  { apply poll_slot. }
+  { apply drop_ops_rel; unfold slot_rel, slot_ok; intros o H H0; op_cbn; auto; exact (H H0). }
+  { apply update_slot. }
+Qed.
+
+Definition all_slots_ok (s : sys) : Prop := forall i o, nth_error (ops s) i = Some o -> slot_ok o.
+
+Lemma step_all_slots_ok s e : all_slots_ok s -> all_slots_ok (fst (step s e)).
+Proof. intros H i o Hi. exact (ops_rel_preserves slot_ok s _ (step_slot s e) H i o Hi). Qed.
+
+Lemma init_all_slots_ok cap0 kinds : all_slots_ok (init cap0 kinds).
+Proof.
+  intros i o Hi. cbn [init ops] in Hi. apply nth_error_In, in_map_iff in Hi.
+  destruct Hi as ([k c] & <- & _). unfold slot_ok. cbn. auto.
+Qed.
